@@ -626,6 +626,18 @@ pub async fn run_suite(seed: u64, cases: usize, only: Option<usize>, out_path: S
       }
       *stats.entry("directed".into()).or_insert(0) += 1;
     }
+    for (i, variant) in ["oversize", "write"].iter().enumerate() {
+      let case = 1_000_010 + i;
+      progress.store((case as u64) << 32, Ordering::Relaxed);
+      let (log, fails) = probe_failed_loop(variant).await;
+      if !fails.is_empty() {
+        transcript.push_str(&log);
+      }
+      for f in fails {
+        failures.push((case, format!("{f} (directed history `failed-loop-{variant}`: `nvh probe_failed_loop --variant {variant}`)")));
+      }
+      *stats.entry("directed".into()).or_insert(0) += 1;
+    }
   }
   progress.store(u64::MAX, Ordering::Relaxed);
   LatOut { transcript, failures, stats }
@@ -1104,4 +1116,114 @@ pub async fn run_micro_suite(seed: u64, cases: usize) -> String {
   }
   let _ = writeln!(out, "stats {{\"suite\":\"micro\",\"seed\":{seed},\"cases\":{cases},\"ops\":{}}}", crate::js_map(&stats));
   out
+}
+
+/// Directed probe: a connection whose loop ends with an *error* — an unsolicited frame that does not fit `max_message_size`
+/// (`oversize`), or a write to a peer that has gone away while frames were queued for it behind a full pipe (`write`) — must be
+/// cleaned up like any other: the user leaves its channels, the name is free again, and a session that comes back under the
+/// name receives nothing of the old channel.
+pub async fn probe_failed_loop(variant: &str) -> (String, Vec<String>) {
+  let long = |c: char| -> String { std::iter::repeat(c).take(210).collect() };
+  let mut cfg = SrvCfg::default();
+  cfg.request_timeout_ms = 60_000;
+  let (ua, ub, chan) = if variant == "oversize" {
+    // everything the 210-character user sends and is sent fits into 256 bytes; a MESSAGE published by it (`from=` that name) does
+    // not: the receiver's connection loop ends with a serialization error (events about the short-named receiver fit: no cascade)
+    cfg.max_message = 256;
+    ("alice".to_string(), long('b'), full("c1"))
+  } else {
+    ("alice".to_string(), "bob".to_string(), full("c1"))
+  };
+  let srv = Srv::new(cfg.clone()).await;
+  let mut c = Case {
+    auth: false,
+    srv,
+    rng: Rng::new(1),
+    user: BTreeMap::new(),
+    dead: BTreeSet::new(),
+    closing: BTreeSet::new(),
+    inbox: BTreeMap::new(),
+    sent: Vec::new(),
+    next_id: 10,
+    log: String::new(),
+    fails: Vec::new(),
+  };
+  // A behind a small pipe in the write variant
+  let a = if variant == "write" { c.srv.open_cap(64) } else { c.srv.open() };
+  c.pump(1).await;
+  c.request(a, Req::Connect { version: 1, hb: 0 }).await;
+  c.request(a, Req::Identify { username: ua.clone() }).await;
+  let b = c.open_identify(&ub).await;
+  if variant == "oversize" {
+    let id = c.id();
+    c.request(b, Req::Join { id, chan: chan.clone(), ob: None }).await;
+    let id = c.id();
+    c.request(a, Req::Join { id, chan: chan.clone(), ob: None }).await;
+    let id = c.id();
+    c.request(b, Req::Broadcast { id, chan: chan.clone(), qos: None, payload: b"first".to_vec() }).await;
+  } else {
+    let id = c.id();
+    c.request(a, Req::Join { id, chan: chan.clone(), ob: None }).await;
+    let id = c.id();
+    c.request(b, Req::Join { id, chan: chan.clone(), ob: None }).await;
+  }
+  if variant == "write" {
+    // B floods the channel; A does not read: its writer blocks on the full pipe; then A's socket goes away
+    for _ in 0..40 {
+      let id = c.id();
+      let w = Req::Broadcast { id, chan: chan.clone(), qos: None, payload: vec![b'x'; 200] }.wire().unwrap();
+      c.srv.send(b, &w).await;
+    }
+    c.srv.settle(2).await;
+    c.close(a);
+  }
+  // (oversize: B's broadcast has produced a MESSAGE for A that cannot be serialized: A's connection loop ends with that error)
+  c.pump(20).await;
+  c.pump(20).await;
+  let mut fails = Vec::new();
+  // MEMBERS as B sees it
+  let id = c.id();
+  c.request(b, Req::Members { id, chan: chan.clone(), page: None, size: None }).await;
+  let members: Vec<String> = match c.replies(b, id).first().map(|f| &f.msg) {
+    Some(Message::ListMembersAck(p)) => p.members.iter().map(|x| x.to_string()).collect(),
+    _ => Vec::new(),
+  };
+  let _ = writeln!(c.log, "members as seen by B: {members:?}; A dead={}", c.dead.contains(&a));
+  let a_nid = format!("{ua}@localhost");
+  // (with the long name the MEMBERS reply itself may not fit; then the announcement is the evidence)
+  let told = c.inbox.get(&b).is_some_and(|v| {
+    v.iter().any(|f| matches!(&f.msg, Message::Event(p) if p.kind.as_ref() == "MEMBER_LEFT" && p.nid.as_ref().map(|n| n.to_string()) == Some(a_nid.clone())))
+  });
+  if !told && c.dead.contains(&a) {
+    for tag in ["C05", "C18"] {
+      fails.push(format!(
+        "{tag}: [failed-loop-no-cleanup] the connection of {} ended with a connection-loop error ({variant}) but the remaining member was never told MEMBER_LEFT",
+        &ua[..5.min(ua.len())]
+      ));
+    }
+  }
+  if members.contains(&a_nid) {
+    for tag in ["C05", "C01"] {
+      fails.push(format!(
+        "{tag}: [failed-loop-no-cleanup] the connection of {} ended with a connection-loop error ({variant}) but the user is still a member of the channel: {} members listed",
+        &ua[..5.min(ua.len())],
+        members.len()
+      ));
+    }
+  }
+  // the name is free again, and the returning session is a member of nothing
+  let a2 = c.open_identify(&ua).await;
+  if !c.user.contains_key(&a2) {
+    fails.push(format!("C07: [name-not-released] after its connection ended with a connection-loop error ({variant}) the username is still in use"));
+  } else {
+    let before = c.inbox.get(&a2).map(|v| v.len()).unwrap_or(0);
+    let id = c.id();
+    c.request(b, Req::Broadcast { id, chan: chan.clone(), qos: None, payload: b"after".to_vec() }).await;
+    c.pump(5).await;
+    let got = c.inbox.get(&a2).map(|v| v[before.min(v.len())..].iter().filter(|f| matches!(f.msg, Message::Message(_))).count()).unwrap_or(0);
+    if got > 0 {
+      fails.push(format!("C01: [departed-user-delivery] the session that came back under the name received a MESSAGE of a channel it never joined ({variant})"));
+    }
+  }
+  (c.log, fails)
 }
